@@ -28,6 +28,7 @@ import Dawgs.Proofs.C01Limit
 import Dawgs.Proofs.C01With
 import Dawgs.Proofs.C01WithHop
 import Dawgs.Proofs.C01Order
+import Dawgs.Proofs.C01Distinct
 namespace Dawgs.C01.Props
 open Dawgs Dawgs.Sql Dawgs.C01.Proofs
 
@@ -566,6 +567,65 @@ theorem tr_total_S1o (km : KindMap) (g : Graph) (hok : GraphOK km g) (s : S1o.Qu
 def exOrdQ : S1o.Query := ⟨⟨"n", ["K"], none, [.prop "name" none, .id none], none⟩, "a", false, some 1, some 2⟩
 example : (ofCyOrder exOrdQ.toCy == some exOrdQ) = true := by decide +kernel
 example : (exOrdQ.tr [("K", 1)]).isSome = true := by decide +kernel
+
+/-! ### stage S1d: RETURN DISTINCT over a node match — `tr9F`. jsonb equality of the returned property values and openCypher's equivalence
+coincide when those values are scalars (`KeysScalar`) -/
+
+theorem ofCyDistinct_sound (q : Cy.Query) (s : S1d.Query) (h : ofCyDistinct q = some s) : s.toCy = q := (Proofs.ofCyDistinct_sound q s h).1
+
+theorem keysScalar_of_check (g : Graph) (keys : List String) (h : keys.all (scalarKeyB g) = true) : KeysScalar keys g.nodes :=
+  keysScalarB_sound g keys h
+
+theorem tr9_some (flipOf : S2.Query → Bool) (flipCh : Ch.Query → Bool) (flipN : S2n.Query → Bool) (fast prune push : Bool) (km : KindMap) (q : Cy.Query)
+    (st : Stmt) (ps : List (String × Val)) (h : tr9F flipOf flipCh flipN fast prune push km q = some (st, ps)) :
+    (ofCyDistinct q = none ∧ tr8F flipOf flipCh flipN fast prune push km q = some (st, ps)) ∨
+    (∃ s : S1d.Query, ofCyDistinct q = some s ∧ s.toCy = q ∧ s.tr km = some st ∧ ps = []) := by
+  unfold tr9F at h
+  cases ho : ofCyDistinct q with
+  | none => rw [ho] at h; exact Or.inl ⟨rfl, h⟩
+  | some s =>
+    rw [ho] at h
+    simp only [Option.map_eq_some_iff] at h
+    obtain ⟨st', hst, heq⟩ := h
+    cases heq
+    exact Or.inr ⟨s, rfl, ofCyDistinct_sound q s ho, hst, rfl⟩
+
+/-- `tr_sound_S1d`: MATCH (n[:K…]) [WHERE p] RETURN DISTINCT items — for every graph with `GraphOK` in which the property keys the RETURN reads
+hold JSON scalars (string, number, boolean) or are absent (`KeysScalar`; outside it `select distinct` compares arrays / objects as jsonb where the
+reference semantics compares lists element-wise with null propagation and leaves map equivalence undefined): whenever the statement yields a table
+and the reference semantics answers, both show the client the same rows in the same order (the first row of every class of equal rows, in scan
+order — that is the order of BOTH models; without ORDER BY neither PostgreSQL nor openCypher promises a row order, so only the bag of rows is a claim
+about the real systems) -/
+theorem tr_sound_S1d (km : KindMap) (g : Graph) (hok : GraphOK km g) (s : S1d.Query) (hK : KeysScalar s.keys g.nodes) (st : Stmt) (h : s.tr km = some st)
+    (t : Table) (ht : Sql.eval (encode km g) st [] = .ok t) (r : List String × List (List Cy.CVal)) (hr : Cy.eval .none g s.toCy = .ok r) :
+    Agree km g t r := by
+  obtain ⟨names, rows, hsql, hagree⟩ := s1d_sound km g hok s hK st h
+  rcases hsql with hsql | ⟨w, hsql⟩
+  · rw [hsql] at ht; cases ht; exact hagree r hr
+  · rw [hsql] at ht; cases ht
+
+/-- the statement never ends in an SQL run-time / type error of the model, and the reference semantics answers every query of the stage -/
+theorem tr_total_S1d (km : KindMap) (g : Graph) (hok : GraphOK km g) (s : S1d.Query) (hK : KeysScalar s.keys g.nodes) (st : Stmt) (h : s.tr km = some st) :
+    (∀ m, Sql.eval (encode km g) st [] ≠ .error (.runtime m)) ∧ (∀ m, Sql.eval (encode km g) st [] ≠ .error (.typing m)) ∧
+    (∃ r, Cy.eval .none g s.toCy = .ok r) := by
+  obtain ⟨names, hsql⟩ := sql_side_d km g hok s st h
+  have hwf : s.wf = true := by
+    unfold S1d.Query.tr at h
+    cases hwf : s.wf with
+    | true => rfl
+    | false => simp [hwf] at h
+  refine ⟨fun m hm => ?_, fun m hm => ?_, ?_⟩
+  · rcases hsql with hsql | ⟨w, hsql⟩
+    · rw [hsql] at hm; cases hm
+    · rw [hsql] at hm; cases hm
+  · rcases hsql with hsql | ⟨w, hsql⟩
+    · rw [hsql] at hm; cases hm
+    · rw [hsql] at hm; cases hm
+  · exact ⟨_, cy_side_d km g hok.nodup s hwf (fun k hk n hn => hK k hk n (List.mem_filter.mp hn).1)⟩
+
+def exDistQ : S1d.Query := ⟨⟨"n", ["K"], some (.propEqInt false "a" 1), [.prop "name" none, .id none], none⟩⟩
+example : (ofCyDistinct exDistQ.toCy == some exDistQ) = true := by decide +kernel
+example : (exDistQ.tr [("K", 1)]).isSome = true := by decide +kernel
 
 theorem ofCyCount2_sound (q : Cy.Query) (s : S2n.Query) (h : ofCyCount2 q = some s) : s.toCy = q := Proofs.ofCyCount2_sound q s h
 
